@@ -37,7 +37,8 @@ REQUIRED = dict(monitors=['restricted-equals-full', 'restricted-grid-is-subset',
                           'sequence-no-stale-state', 'per-source-restricted-equals-full'],
                 classes=['grid:inside', 'grid:edge', 'grid:partly-outside', 'grid:observation', 'model:emission',
                          'different-native-grids', 'layout:xsec', 'layout:ktable', 'contrib:HydrogenIon',
-                         'sliding-window-same-size'])
+                         'sliding-window-same-size', 'request:own-full', 'request:foreign-same-ends-and-count',
+                         'request:foreign-shifted-same-count', 'request:own-sub-range', 'request:foreign-random'])
 CUT = math.exp(-10.0)
 
 
@@ -339,34 +340,23 @@ def make_opacity(rng, layout):
     return FakeK('H2O', wn, T, P, xk, interpolation_mode=mode), wn, T, P
 
 
-def wl_opacity(ctx, rng):
-    layout = ['xsec', 'ktable'][rng.integers(0, 2)]
-    ctx.observe('layout:' + layout)
-    op, wn, T, P = make_opacity(rng, layout)
-    t = float(rng.uniform(T[0] * 0.7, T[-1] * 1.2))
-    p = float(10 ** rng.uniform(np.log10(P[0]) - 1, np.log10(P[-1]) + 1))
-    fullv = np.array(op.opacity(t, p))
-    # own native points (a contiguous sub-range) are returned unchanged
-    i0 = int(rng.integers(0, len(wn) - 1))
-    i1 = int(rng.integers(i0 + 1, len(wn) + 1))
-    own = wn[i0:i1]
-    v = np.array(op.opacity(t, p, own))
-    ctx.check('opacity-own-points-unchanged', v.shape == fullv[i0:i1].shape and np.array_equal(v, fullv[i0:i1]),
-              layout=layout, n=len(own))
-    # foreign points: between the two neighbouring native values (edge value outside the native range)
-    kf = int(rng.integers(2, 15))
-    a, b = sorted(rng.uniform(wn[0] - 0.1 * (wn[-1] - wn[0]), wn[-1] + 0.1 * (wn[-1] - wn[0]), 2))
-    foreign = np.unique(np.linspace(a, b, kf))
-    if not np.any((wn >= foreign.min()) & (wn <= foreign.max())):
-        ctx.event('domain-skip:request-contains-no-native-point')
-        ctx.sig('opacity-empty', layout, len(wn))
-        return
-    v = np.array(op.opacity(t, p, foreign))
+def judge_request(ctx, op, t, p, grid, fullv, wn, layout, kind):
+    """One request on the (same) opacity object: own native points are returned unchanged, other points lie between
+    the two neighbouring native values (the edge value outside the native range)."""
+    v = np.array(op.opacity(t, p, grid))
     fv = fullv.reshape(len(wn), -1)
-    vv = v.reshape(len(foreign), -1)
+    ok_shape = ctx.check('opacity-request-shape', v.shape[0] == len(grid), got=list(v.shape), n=len(grid), kind=kind, layout=layout)
+    if not ok_shape:
+        return
+    vv = v.reshape(len(grid), -1)
+    idx = np.searchsorted(wn, grid)
+    own = bool(np.all(idx < len(wn)) and np.array_equal(wn[np.minimum(idx, len(wn) - 1)], grid)
+               and (len(grid) < 2 or np.all(np.diff(idx) == 1)))
+    if own:
+        ctx.check('opacity-own-points-unchanged', np.array_equal(vv, fv[idx]), layout=layout, n=len(grid), kind=kind)
+        return
     ok = True
-    worst = 0.0
-    for j, f in enumerate(foreign):
+    for j, f in enumerate(grid):
         hi_i = int(np.searchsorted(wn, f, side='left'))
         lo_i = hi_i - 1
         cand = [fv[k] for k in (lo_i, hi_i) if 0 <= k < len(wn)]
@@ -375,11 +365,56 @@ def wl_opacity(ctx, rng):
         lo_v = np.min(cand, axis=0)
         hi_v = np.max(cand, axis=0)
         tol = 1e-12 * np.abs(hi_v)
-        good = np.all(vv[j] >= lo_v - tol) and np.all(vv[j] <= hi_v + tol)
-        ok = ok and good
-    ctx.check('opacity-foreign-points-between-neighbours', ok, layout=layout, n_foreign=len(foreign), n_native=len(wn),
-              request=[float(foreign.min()), float(foreign.max())], native=[float(wn[0]), float(wn[-1])])
-    ctx.sig('opacity', layout, len(wn), len(foreign), round(t, 3))
+        ok = ok and bool(np.all(vv[j] >= lo_v - tol) and np.all(vv[j] <= hi_v + tol))
+    ctx.check('opacity-foreign-points-between-neighbours', ok, layout=layout, n_foreign=len(grid), n_native=len(wn),
+              request=[float(np.min(grid)), float(np.max(grid))], native=[float(wn[0]), float(wn[-1])], kind=kind)
+
+
+def wl_opacity(ctx, rng):
+    """A SEQUENCE of requests on one opacity object (the object lives in the cache and serves every model and every
+    layer): own sub-range, the whole native grid, random other points, other points with the SAME end points and
+    count as the native grid, a shifted copy of the native grid, and the native grid again."""
+    layout = ['xsec', 'ktable'][rng.integers(0, 2)]
+    ctx.observe('layout:' + layout)
+    op, wn, T, P = make_opacity(rng, layout)
+    t = float(rng.uniform(T[0] * 0.7, T[-1] * 1.2))
+    p = float(10 ** rng.uniform(np.log10(P[0]) - 1, np.log10(P[-1]) + 1))
+    fullv = np.array(op.opacity(t, p))
+    kinds = ['own-sub-range', 'foreign-random']
+    extra = ['own-full', 'foreign-same-ends-and-count', 'foreign-shifted-same-count', 'own-sub-range', 'foreign-random', 'own-full']
+    kinds += [extra[k] for k in rng.integers(0, len(extra), int(rng.integers(1, 5)))]
+    kinds = [kinds[k] for k in rng.permutation(len(kinds))]
+    done = []
+    for kind in kinds:
+        if kind == 'own-sub-range':
+            i0 = int(rng.integers(0, len(wn) - 1))
+            i1 = int(rng.integers(i0 + 1, len(wn) + 1))
+            grid = wn[i0:i1].copy()
+        elif kind == 'own-full':
+            grid = wn.copy()
+        elif kind == 'foreign-same-ends-and-count':
+            if len(wn) < 3:
+                continue
+            u = np.sort(rng.uniform(0, 1, len(wn) - 2)) ** float(rng.choice([0.5, 2.0, 1.0]))
+            grid = np.concatenate([[wn[0]], wn[0] + (wn[-1] - wn[0]) * np.clip(u, 1e-6, 1 - 1e-6), [wn[-1]]])
+            grid = np.unique(grid)
+            if len(grid) != len(wn):
+                continue
+        elif kind == 'foreign-shifted-same-count':
+            grid = wn + float(rng.uniform(-0.4, 0.4)) * float(np.min(np.diff(wn)))
+        else:
+            kf = int(rng.integers(2, 15))
+            a, b = sorted(rng.uniform(wn[0] - 0.1 * (wn[-1] - wn[0]), wn[-1] + 0.1 * (wn[-1] - wn[0]), 2))
+            grid = np.unique(np.linspace(a, b, kf))
+        if not np.any((wn >= grid.min()) & (wn <= grid.max())):
+            ctx.event('domain-skip:request-contains-no-native-point')
+            continue
+        judge_request(ctx, op, t, p, grid, fullv, wn, layout, kind)
+        ctx.observe('request:' + kind)
+        done.append(kind)
+    again = np.array(op.opacity(t, p))
+    ctx.check('opacity-native-unchanged-after-requests', np.array_equal(again, fullv), layout=layout, sequence=done)
+    ctx.sig('opacity', layout, len(wn), tuple(done), round(t, 3))
 
 
 def wl_sequence(ctx, rng):
